@@ -109,12 +109,20 @@ EnumField = Struct("EnumField", NS2, emb="more.emb", fields=[
     F("blue", 2, 1, UInt(), cond=lambda f: f.color == 300),
     V("is_red", lambda f: f.color == 1, boolean=True),
 ])
+CondAnon = Struct("CondAnon", NS2, emb="more.emb", fields=[
+    F("tag", 0, 1, UInt()),
+    F("body", 1, 1, UInt()),
+    F("anon", 2, 1, Bytes(), observe=False, cond=lambda f: f.tag == 1),
+    F("lo", 2, 1, UInt(), bits=(0, 4), contribute=False, cond=lambda f: f.tag == 1),
+    F("hi", 2, 1, UInt(), bits=(4, 4), contribute=False, cond=lambda f: f.tag == 1),
+    V("body_alias", lambda f: f.body, cond=lambda f: f.tag == 2),
+])
 for _s in (WithBits, Nested):
     _s.c20 = False      # Equals over named containers / nested structures is not specified by fields_equal yet
 
 Dyn.c20 = False       # array field: element-wise Equals needs loop invariants, not unrolling (not covered)
 ALL = {"Plain": Plain, "Cond": Cond, "Dyn": Dyn, "Virt": Virt, "Kleene": Kleene, "Absent": Absent, "Checked": Checked,
-       "WithBits": WithBits, "Param": Param, "Nested": Nested, "Req": Req, "Next": Next, "EnumField": EnumField}
+       "WithBits": WithBits, "Param": Param, "Nested": Nested, "Req": Req, "Next": Next, "EnumField": EnumField, "CondAnon": CondAnon}
 
 
 # ---------------------------------------------------------------------------
